@@ -7,7 +7,7 @@ V = os.path.dirname(os.path.dirname(os.path.abspath(__file__)))
 ALL = ["C%02d" % i for i in range(1, 21)]
 own = "--own" in sys.argv
 bad = 0
-for pat in sorted(glob.glob(os.path.join(V, "benign", "C*", "*.patch"))):
+for pat in sorted(glob.glob(os.path.join(V, "benign", "*", "*.patch"))):
     p = os.path.basename(os.path.dirname(pat))
     props = [p] if own else ALL
     r = subprocess.run([os.path.join(V, "tools", "runmutant.py"), pat] + props, capture_output=True, text=True)
